@@ -181,7 +181,7 @@ func (s *c17Schema) line() string {
 				d = c17H(*f.dflt)
 				if f.kind[0] == 's' {
 					k, _ := strconv.Atoi(f.kind[1:])
-					oracle = append(oracle, s.oracleEntry(k, *f.dflt))
+					oracle = append(oracle, s.oracleEntry(k, *f.dflt), s.oracleEntry(100, *f.dflt), s.oracleEntry(101, *f.dflt))
 				}
 			}
 			w = append(w, c17H(f.key), f.kind, d, c17B(f.req), c17B(f.rep))
@@ -415,7 +415,7 @@ func (g *c17CGen) fn() string {
 	}
 	ps := make([]string, n)
 	for i := range ps {
-		v := g.pick("x", "'a b'", "1.1.1.1", "80", "tcp", "curl", "'^a.*$'", "0x1", "geosite:cn", "aaaa", "googledns", "10.0.0.0/8")
+		v := g.pick("x", "'a b'", "1.1.1.1", "80", "tcp", "curl", "'^a.*$'", "0x1", "cn", "aaaa", "googledns", "10.0.0.0/8")
 		if g.r.Chance(0.4) {
 			ps[i] = g.pick("keyword", "regex", "suffix", "full", "geosite", "mark", "k") + ": " + v
 		} else {
@@ -483,7 +483,7 @@ func (g *c17CGen) field(f c17Field, d int) {
 			g.b.WriteString(f.key + " {\n")
 			for i, n := 0, g.r.Intn(4); i < n; i++ {
 				g.indent(d + 1)
-				g.b.WriteString(g.pick("a", "'b c'", "k: v", "'x,y'", "tag: 'ss://LINK'", "f: g(h)", "r(x) -> y", "s { }") + "\n")
+				g.b.WriteString(g.pick("a", "'b c'", "k: v", "'x,y'", "tag: 'ss://LINK'", "f: g(h)", "a", "b", "c", "r(x) -> y", "s { }") + "\n")
 			}
 			g.indent(d)
 			g.b.WriteString("}\n")
@@ -625,8 +625,16 @@ func (g *c17CGen) config() string {
 				g.b.WriteString(sp.key + " {\n")
 				g.structListBody(sid, 1)
 				g.b.WriteString("}\n")
-			default:
-				g.field(sp, 0)
+			default: // string list: only the section form exists at top level
+				g.b.WriteString(sp.key + " {\n")
+				for i, n := 0, g.r.Intn(4); i < n; i++ {
+					g.b.WriteString("  " + g.pick("a", "'b c'", "k: v", "'x,y'", "tag: 'ss://LINK'", "f: g(h)", "'https://sub/link'") + "\n")
+				}
+				if g.r.Chance(0.05) {
+					g.b.WriteString("  " + g.pick("r(x) -> y", "s { }") + "\n")
+					g.stats.Inc("cfg.mut.nonparam-in-strlist")
+				}
+				g.b.WriteString("}\n")
 			}
 		}
 	}
